@@ -117,7 +117,15 @@ def run_conn(ctx, props):
         if "C13" in props or "C10" in props:
             try:
                 sframes = parse_frames(bytes(c["reply_single"]))
-                same = len(sframes) == len(rframes) and all(a["t"] == b["t"] and (a["t"] in ("error",) or a == b) for a, b in zip(sframes, rframes))
+                if endc == 1 and len(sframes) != len(rframes):
+                    # the server closed on a protocol error with client bytes unread: TCP answers RST and replies the
+                    # client had not read yet may be discarded by its kernel; only the common prefix is comparable
+                    k = min(len(sframes), len(rframes))
+                    sframes, rframes_cmp = sframes[:k], rframes[:k]
+                    stats["rst_truncated"] = stats.get("rst_truncated", 0) + 1
+                else:
+                    rframes_cmp = rframes
+                same = len(sframes) == len(rframes_cmp) and all(a["t"] == b["t"] and (a["t"] in ("error",) or a == b) for a, b in zip(sframes, rframes_cmp))
             except ValueError:
                 same = False
             if not same:
@@ -126,6 +134,10 @@ def run_conn(ctx, props):
                 continue
         mframes = parse_frames(exp_bytes)
         stats["commands_replied"] += len(rframes)
+        if endc == 1 and len(rframes) < len(mframes):
+            # same RST truncation: the real stream may stop early, never run long or differ
+            stats["rst_truncated"] = stats.get("rst_truncated", 0) + 1
+            mframes = mframes[:len(rframes)]
         ok = len(mframes) == len(rframes) and all(frames_match(a, b) for a, b in zip(mframes, rframes))
         if not ok:
             if len(mframes) != len(rframes) and ("C10" in props or "C14" in props):
